@@ -341,6 +341,11 @@ func strFieldEmptyCond(cond ssa.Value, field string) int {
 }
 
 func isFieldLoad(v ssa.Value, T, field string) bool {
+	// x.f read from a copy of the struct (got := *p; got.f)
+	if fv, ok := v.(*ssa.Field); ok {
+		t, f := fieldOf(fv.X.Type(), fv.Field)
+		return f == field && (T == "" || t == T)
+	}
 	ld, ok := v.(*ssa.UnOp)
 	if !ok || ld.Op != token.MUL {
 		return false
